@@ -23,7 +23,7 @@ LEVEL_TEXT = ("Base scenarios with depth-dependent sheared, time-dependent curre
 LEVEL_NOTE = "Equality is on f8 output, so 'bit for bit' is exact. Trusts the row tag column (an int instance variable) to follow the particle (C05)."
 RULE = ("case = base scenario + variant list. Non-trivial: at least one particle placed behind a removed/killed one in the state arrays survives for >= 3 further records "
         "(the cross-talk pattern); distinct by base parameters.")
-MANDATORY = ["repeat_pairs", "subset_pairs", "added_rows_pairs", "permuted_pairs", "killed_others_pairs", "time_shift_pairs", "deactivated_others_pairs", "death_then_output",
+MANDATORY = ["float_day_time_axis", "repeat_pairs", "subset_pairs", "added_rows_pairs", "permuted_pairs", "killed_others_pairs", "time_shift_pairs", "deactivated_others_pairs", "death_then_output",
              "trajectory_points_compared", "dense", "sparse", "survivor_behind_removed"]
 ASSUMPTIONS = ["diffusion off (as the property states)"]
 TIMEOUT = {"quick": 900, "thorough": 3400}
@@ -69,7 +69,9 @@ def base_spec(case: dict[str, Any]):
         rows.append(dict(step=step, X=x, Y=y, Z=float(np.round(rng.uniform(0, 150), 2)), rid=rid))
     rows.sort(key=lambda r: r["step"])
     layout = "dense" if case["idx"] % 4 == 3 else "sparse"
-    return dict(world=world, rows=rows, dt=dt, nsteps=nsteps, scheme=["EF", "RK2", "RK4"][case["idx"] % 3], layout=layout)
+    # half of the bases store ocean_time as float days (frame times not exactly representable in that unit)
+    tu = "days since 2019-12-01 00:00:00" if (case["idx"] // 2) % 2 else None
+    return dict(world=world, rows=rows, dt=dt, nsteps=nsteps, scheme=["EF", "RK2", "RK4"][case["idx"] % 3], layout=layout, time_units=tu)
 
 
 def make_scn(b: dict[str, Any], rows: list[dict[str, Any]], kill_tag: dict[str, list[int]], shift_steps: int = 0,
@@ -77,6 +79,8 @@ def make_scn(b: dict[str, Any], rows: list[dict[str, Any]], kill_tag: dict[str, 
     dt = b["dt"]
     start = str(tadd(C.T0, shift_steps * dt))
     w = dict(b["world"], t0=start)
+    if b.get("time_units"):
+        w["time_units"] = b["time_units"]
     rel = [[str(tadd(start, r["step"] * dt)), r["X"], r["Y"], r["Z"], r["rid"]] for r in rows]
     run = dict(start=start, stop=str(tadd(start, b["nsteps"] * dt)), dt=dt, advection=b["scheme"], extra_forcing=["temp"],
                release=dict(columns=["release_time", "X", "Y", "Z", "rid"], rows=rel, header=True),
@@ -108,6 +112,7 @@ def run_case(case: dict[str, Any], wd: Path) -> dict[str, Any]:
     cnt: dict[str, int] = {}
     desc = dict(idx=case["idx"], scheme=b["scheme"], layout=b["layout"], nsteps=b["nsteps"], nrows=len(b["rows"]))
     sit[b["layout"]] = 1
+    sit["float_day_time_axis"] = int(bool(b.get("time_units")))
 
     def run(tag, rows, kill_tag, shift=0, deact=None):
         scn = make_scn(b, rows, kill_tag, shift, deact)
